@@ -9,4 +9,6 @@ INVARIANT PrefixOK
 INVARIANT Conserved
 INVARIANT ClosedOnce
 PROPERTY DeadSilent
+PROPERTY ShutCleanP
+INVARIANT ShutCleanI
 CHECK_DEADLOCK FALSE
